@@ -3,6 +3,7 @@ CONSTANTS Urls <- UrlsC
           MaxMsgs = 3
           MaxInFlight = 2
           VersionGuard = FALSE
+          RefreshFromMemory = TRUE
 INIT LInit
 NEXT LNext
 INVARIANTS LastWord
